@@ -238,7 +238,7 @@ func (ex *Exec) enter(fr *Frame, st *State, b *ssa.BasicBlock, prev *ssa.BasicBl
 			}
 			fr2.generic[b] = true
 			ex.Stats.Widen++
-			ex.havocAll(st2, "generic iteration of loop in "+fr.fn.Name())
+			ex.havocLoop(fr2, st2, li)
 			if fr2.kept == nil {
 				fr2.kept = map[*ssa.Phi]keptInv{}
 			}
@@ -1327,4 +1327,87 @@ func phiStep(phi *ssa.Phi, li *loopInfo) (int64, bool) {
 		step, found = k, true
 	}
 	return step, found
+}
+
+// havocLoop forgets what a loop may write: if the loop body contains no calls, only the objects its Store
+// instructions address (resolved in the state at loop entry); otherwise the whole heap.
+func (ex *Exec) havocLoop(fr *Frame, st *State, li *loopInfo) {
+	var roots []Val
+	precise := true
+	for b := range li.Body {
+		for _, in := range b.Instrs {
+			switch x := in.(type) {
+			case *ssa.Call:
+				if _, isB := x.Call.Value.(*ssa.Builtin); !isB {
+					precise = false
+				}
+			case *ssa.Go, *ssa.Defer, *ssa.Send, *ssa.MapUpdate:
+				precise = false
+			case *ssa.Store:
+				base := x.Addr
+				for {
+					switch a := base.(type) {
+					case *ssa.IndexAddr:
+						base = a.X
+						continue
+					case *ssa.FieldAddr:
+						base = a.X
+						continue
+					}
+					break
+				}
+				v, ok := fr.regs[base]
+				if !ok {
+					precise = false
+					break
+				}
+				switch pv := v.(type) {
+				case *PtrV:
+					if pv.Unk {
+						precise = false
+					}
+				case *SliceV:
+					if pv.Unk {
+						precise = false
+					}
+				default:
+					precise = false
+				}
+				roots = append(roots, v)
+			}
+		}
+	}
+	if !precise {
+		ex.havocAll(st, "generic iteration of loop in "+fr.fn.Name())
+		return
+	}
+	// only the directly addressed objects (not what they point to: stores go to these objects themselves)
+	st.note("havoc objects written by loop in %s", fr.fn.Name())
+	for _, r := range roots {
+		id := -1
+		switch pv := r.(type) {
+		case *PtrV:
+			if !pv.Nil {
+				id = pv.Obj
+			}
+		case *SliceV:
+			if !pv.Nil {
+				id = pv.Obj
+			}
+		}
+		if id < 0 || ex.constObj[id] {
+			continue
+		}
+		switch x := st.heap[id].(type) {
+		case *ArrayV:
+			src := ex.syms.Fresh("loopw", 8, false).Name
+			st.heap[id] = &ArrayV{Elem: x.Elem, Segs: []Seg{{Run: &Run{Src: src, Off: constTerm(0), Len: arrLen(x)}}}}
+		default:
+			if t := ex.objType[id]; t != nil {
+				st.heap[id] = ex.topOf(st, t, "loopw")
+			} else {
+				st.heap[id] = &TopV{}
+			}
+		}
+	}
 }
